@@ -81,7 +81,7 @@ Print Assumptions C10_fan_sender_order.
 
 (* any mix of uses of a MultiPort over EchoPorts at once - sending on it and on its sub-ports, receiving and iterating on it and on its
    sub-ports - under every schedule (Model/ConcMix.v; ConcMulti.v and ConcFan.v are its two pure cases) *)
-Require Import Mido.Model.ConcMix Mido.Proofs.ConcMixProofs.
+Require Import Mido.Model.ConcMix Mido.Proofs.ConcMixProofs Mido.Model.ConcHelpers Mido.Proofs.ConcHelpersProofs.
 Theorem C10_mix_no_raise : forall n progs sched t e, xat (snd (xrun sched (xinit n progs)) t) <> XRaised e.
 Proof. exact mix_no_raise. Qed.
 Print Assumptions C10_mix_no_raise.
@@ -111,6 +111,37 @@ Theorem C10_mix_end_to_end : forall n progs sched,
   forall i, exists rest, map snd (xapp s (S i)) = popped (S i) (xpops s) ++ rest.
 Proof. exact mix_end_to_end. Qed.
 Print Assumptions C10_mix_end_to_end.
+(* the helper functions multi_send / multi_receive(block=False) on a caller's own list of ports (Model/ConcHelpers.v), called by threads
+   that also use the MultiPort and its sub-ports in every other way: under every schedule nothing is raised, what a thread's calls put
+   into each sub-port's deque is in order what the calls say (hsends: once per occurrence of the port in the list), every deque hands out
+   a prefix of what was put into it, and a call on a list of distinct sub-ports puts the message into each exactly once *)
+Theorem C10_helpers_no_raise : forall n hprogs sched t e, xat (snd (xrun sched (hinit n hprogs)) t) <> XRaised e.
+Proof. exact helpers_no_raise. Qed.
+Print Assumptions C10_helpers_no_raise.
+Theorem C10_helpers_sender_order : forall n hprogs sched t i,
+  let '(s, ts) := xrun sched (hinit n hprogs) in
+  hsends n i (hprogs t) = mine_of t (xapp s (S i)) ++ xpending n i (ts t).
+Proof. exact helpers_sender_order. Qed.
+Print Assumptions C10_helpers_sender_order.
+Theorem C10_helpers_end_to_end : forall n hprogs sched,
+  let '(s, ts) := xrun sched (hinit n hprogs) in
+  swept (xpops s) = popped 0 (xpops s) ++ xq s 0 ++ inflight s ts /\
+  forall i, exists rest, map snd (xapp s (S i)) = popped (S i) (xpops s) ++ rest.
+Proof. exact helpers_end_to_end. Qed.
+Print Assumptions C10_helpers_end_to_end.
+Theorem C10_multi_send_each_once : forall n i js m, NoDup js ->
+  hsend1 n i (HMSend (map S js) m) = if existsb (Nat.eqb i) js then [m] else [].
+Proof. exact hsend1_msend_nodup. Qed.
+Print Assumptions C10_multi_send_each_once.
+Example C10_helpers_nontrivial :
+  let hprogs := fun t => match t with
+                         | 0%nat => [HMSend [1; 2]%nat (NoteOn 0 1 2); HPlain (XSend 0%nat (NoteOn 0 3 4))]
+                         | _ => [HMRecv [2; 1]%nat; HMRecv [2; 1]%nat]
+                         end in
+  let '(s, ts) := xrun (flat_map (fun _ => [0; 0; 0; 1; 1; 1; 1; 0]%nat) (seq 0 30)) (hinit 2 hprogs) in
+  collapse (hprogs 0%nat) (xresults (ts 0%nat)) = [RSent; RSent] /\
+  collapse (hprogs 1%nat) (xresults (ts 1%nat)) = [RList [NoteOn 0 1 2]; RList [NoteOn 0 1 2; NoteOn 0 3 4; NoteOn 0 3 4]].
+Proof. vm_compute. split; reflexivity. Qed.
 (* the hypotheses are met by real runs: three threads, two sub-ports, every kind of use at once *)
 Example C10_mix_nontrivial :
   let progs := fun t => match t with
